@@ -11,7 +11,7 @@ TECH = ("jaxpr of LieselInterface(model).update_state(position of all input valu
         "interpreted over z3 reals (lgamma/log/exp uninterpreted); z3 decides each negated obligation; a concrete build-coherence comparison per model")
 
 
-def encode(chk, name, prefix=None, share=None):
+def encode(chk, name, prefix=None, share=None, literals=False):
     import liesel.goose as gs
     model = M.FAMILY[name]()
     iface = gs.LieselInterface(model)
@@ -19,6 +19,10 @@ def encode(chk, name, prefix=None, share=None):
     strong = M.strong_names(model)
     vals0 = M.values_of(st0)
     pos0 = {k: jnp.asarray(vals0[k]) for k in strong if np.asarray(vals0[k]).dtype.kind == "f" and not M.is_concrete_name(k)}
+    if literals:
+        # hyper-parameters written as literals (`Dist(tfd.Normal, loc=0.0, scale=10.0)`) are ordinary value nodes: they can be assigned after the
+        # build (by node name) like any other input, and the densities must follow
+        pos0.update({k: jnp.asarray(vals0[k]) for k in strong if M.is_concrete_name(k) and np.asarray(vals0[k]).dtype.kind == "f" and np.ndim(vals0[k]) == 0})
     cm = iface._model
     for t in ("_model_log_lik", "_model_log_prior", "_model_log_prob"):
         if st0[t].value is None:
@@ -36,7 +40,7 @@ def encode(chk, name, prefix=None, share=None):
         for c, v in zip(cells(a), np.asarray(pos0[k]).reshape(-1)):
             v = float(v)
             dom[c.decl().name()] = (0.7 * v, 1.3 * v) if v > 0 else ((1.3 * v, 0.7 * v) if v < 0 else (-0.5, 0.5))
-    enc = chk.note_enc(Enc(f"update_state[{name}]", f, (pos0,), (sym,), domain=dom))
+    enc = chk.note_enc(Enc(f"update_state[{name}]" + (" with the literal hyper-parameters assigned as well" if literals else ""), f, (pos0,), (sym,), domain=dom))
     return model, enc, sym, pos0
 
 
@@ -189,6 +193,12 @@ def main():
         build_coherence(chk, name, model, enc, pos0)
         chk.validated_points += enc.validate(chk.rng, npoints=1)
     inplace_assignment(chk)
+    for name in ("regression(transformed scale)", "weak-hierarchy"):
+        res = chk.guarded(f"{name}:literals:trace", f"[{name}] tracing update_state with the literal hyper-parameters in the position", encode, chk, name, "lit" + "".join(ch for ch in name if ch.isalnum()), None, True)
+        if res:
+            model_l, enc_l, sym_l, pos_l = res
+            obs += [o for o in obligations(name + " / literal hyper-parameters assigned", model_l, enc_l)]
+            chk.validated_points += enc_l.validate(chk.rng, npoints=1)
     for name in [n for n in M.FAMILY if "weak" in n or n == "regression(transformed scale)"]:
         res = chk.guarded(f"{name}:targeted-total:trace", f"[{name}] tracing the by-name update of the total", targeted_total, chk, name)
         if res:
